@@ -200,6 +200,18 @@ func runCrashWorkload(cfg CrashCfg, seed uint64, cas int, res *CrashRes) *crashW
 			} else if o := s.m.lookupIn(s.m.Objs[s.m.Root], "big"); o != nil && o.FH != nil {
 				op = &Op{K: OpSetattr, H: o.FH, SetSize: true, Size: uint64(rng.Intn(3 * BlockSize))}
 			}
+		case cfg.WriteHeavy && i%13 == 6:
+			// a request whose transaction the journal rejects (too large), in the
+			// middle of unstable writes: it must fail without side effects on what
+			// COMMIT later makes durable
+			if o := s.pickObj(KReg); o != nil {
+				s.nextUid++
+				doOne(&Op{K: OpWrite, H: o.FH, Off: o.Size, Count: 3000, DataLen: 3000, Uid: s.nextUid, Stable: 0})
+				doOne(&Op{K: OpSymlink, H: s.srv.Root, Name: fmt.Sprintf("huge%d", i), Target: longName(520*BlockSize+1, 'H')})
+				doOne(&Op{K: OpCommit, H: o.FH, Off: 0, Count: 0})
+				continue
+			}
+			op = &Op{K: OpSymlink, H: s.srv.Root, Name: fmt.Sprintf("huge%d", i), Target: longName(520*BlockSize+1, 'H')}
 		case cfg.Restarts && i > 0 && i%17 == 0:
 			// clean restart WITHOUT flush: unstable operations may be lost as a
 			// suffix; the reference follows the state that is found
